@@ -163,15 +163,24 @@ def rand_value(rng, regime):
         return rng.choice([-1, 1]) * 10.0 ** rng.uniform(-20, 20)
     if regime == "grid":
         return rng.choice([0.0, -0.0, 1.0, -1.0, 0.5, 2.0, -3.0, 1e-30, 0.1, 1e30])
+    if regime == "clipedge":
+        return rng.gauss(0, 1) * 1e-4
     raise ValueError(regime)
 
 
-def gen_theta_case(rng, kind, n_s, n_t, regime=None):
+def gen_theta_case(rng, kind, n_s, n_t, regime=None, d=None):
     regime = regime or rng.choice(["normal", "normal", "normal", "tiny", "large", "mixed", "grid"])
-    d = rng.choice([0, 1, 1, 2, 2, 3, 5, 9])
+    d = rng.choice([0, 1, 1, 2, 2, 3, 5, 9]) if d is None else d
     val = lambda: fbits(rand_value(rng, regime))  # noqa: E731
     prec = fbits(rng.choice([1.0, 0.37, 2.5, 1e-12, 1e12, 10.0 ** rng.uniform(-30, 30), abs(rng.gauss(0, 1)) + 1e-3]))
     layout = rng.choice(["c", "c", "c", "f", "strided_ro", "negstride"])
+    if kind == "sdc" and regime == "clipedge":
+        # the modelled mean sits just inside / just outside logit(0.01) = -4.59512 or logit(0.99) = +4.59512: the clip bounds 0.01 / 0.99
+        # are written four times in the code (predict, predict_single_drug, interaction viability twice)
+        edge = fbits(rng.choice([-1, 1]) * (4.595119850134589 + rng.choice([-0.02, -0.002, 0.002, 0.02])))
+        return {"W": [[val() for _ in range(d)] for _ in range(n_s)], "W0": [val() for _ in range(n_s)],
+                "V2": [[val() for _ in range(d)] for _ in range(n_t)], "V1": [[val() for _ in range(d)] for _ in range(n_t)],
+                "V0": [val() for _ in range(n_t)], "alpha": edge, "precision": prec, "D": d, "regime": regime, "layout": layout}
     if kind == "sdc":
         return {"W": [[val() for _ in range(d)] for _ in range(n_s)], "W0": [val() for _ in range(n_s)],
                 "V2": [[val() for _ in range(d)] for _ in range(n_t)], "V1": [[val() for _ in range(d)] for _ in range(n_t)],
@@ -180,7 +189,7 @@ def gen_theta_case(rng, kind, n_s, n_t, regime=None):
     for s in range(n_s):
         lookup.append([s, -1, fbits(1.0)])
         for t in range(n_t):
-            v = rng.choice([rng.random(), rng.random() * 1.5, 0.005, 0.995, 1.0, 0.5, 0.0, 1e-9])
+            v = rng.choice([rng.random(), rng.random() * 1.5, 0.005, 0.995, 1.0, 0.5, 0.0, 1e-9, 0.0099, 0.0101, 0.9899, 0.9901])
             lookup.append([s, t, fbits(v)])
     rng.shuffle(lookup)
     return {"W": [[val() for _ in range(d)] for _ in range(n_s)], "V2": [[val() for _ in range(d)] for _ in range(n_t)],
@@ -230,6 +239,34 @@ def gen_raw(rng, arity, n_s, n_t, n_max):
                obs=[rng.random() for _ in range(n)], mask=None,
                tmap=None, smap=None, n_s=n_s, n_t=n_t, suffix=suffix)
     return decorate_raw(rng, raw)
+
+
+WIDE_IDS = [127, 128, 255, 256, 257, 0]
+
+
+def widen_ids(rng, raw):
+    """integer-width boundaries: the agents of this screen get the treatment ids 127, 128, 255, 256, 257 (and 0) out of 258"""
+    n_t = raw["n_t"]
+    suffix = raw.get("suffix", "")
+    pool = rng.sample(range(n_t), len(WIDE_IDS))
+    turn = [rng.randrange(len(pool)) for _ in range(raw["arity"])]
+    for r in range(len(raw["tnames"])):
+        for c in range(raw["arity"]):
+            if raw["tnames"][r][c].startswith("t") and raw["tdoses"][r][c] > 0:       # a real agent of the pool
+                j = pool[turn[c] % len(pool)]      # every column cycles through all the boundary ids
+                turn[c] += 1
+                raw["tnames"][r][c], raw["tdoses"][r][c] = "t%d%s" % (j, suffix), 1.0 + (j % 3)
+    tm, _ = mappings_for(dict(raw, enc=None))
+    default_id = {(str(nm), float(ds)): int(i) for nm, ds, i in zip(*tm)}
+    perm = list(range(n_t))
+    for j, want in zip(pool, WIDE_IDS):
+        a = default_id[("t%d%s" % (j, suffix), 1.0 + (j % 3))]
+        x = perm.index(want)
+        perm[a], perm[x] = perm[x], perm[a]
+    enc = raw.get("enc") or {"sperm": list(range(raw["n_s"])), "trow": list(range(n_t + len(CTRL_CELLS))), "srow": list(range(raw["n_s"]))}
+    enc["tperm"] = perm
+    raw["enc"] = enc
+    raw["wide"] = True
 
 
 def decorate_raw(rng, raw):
@@ -404,6 +441,8 @@ class Runner:
         self.failed = False
         self.kept = []         # (result array, its values when returned, method): re-read after all later calls
         self.tmp_id_reuse = None
+        self.instalments = False
+        self.clip = set()
 
     def recheck_kept(self):
         for arr, vals, what in self.kept:
@@ -427,8 +466,9 @@ class Runner:
                 # the result must be fresh storage: not a view of theta / of the screen / of an earlier result
                 for a in arrays_of(th) + arrays_of(base) + [k[0] for k in self.kept]:
                     if a.size and raw_out.size and np.shares_memory(raw_out, a):
-                        self.fail("a prediction shares storage with theta, the screen or an earlier result", {"method": what}, "fresh array",
-                                  signature="C09:aliasing")
+                        # not a clause of the property by itself (a view is legal as long as nothing changes): counted only;
+                        # `recheck_kept` fires when an earlier result actually CHANGES after later calls
+                        self.res.count("observed.result_shares_storage")
                         break
                 if len(self.kept) < 40:
                     self.kept.append((raw_out, list(out), what))
@@ -533,6 +573,34 @@ def run_temporaries(R, case, raw, kind, thetas):
                            {"members": combo, "got": out.reshape(-1)[:8].tolist()}, want.reshape(-1)[:8].tolist(), signature="C09:temporaries")
                     break
     R.tmp_id_reuse = reused
+    # ---- instalments: the same holder built by add_theta one sample at a time, and by combining two partial holders
+    if len(thetas) >= 2:
+        try:
+            h1 = ThetaHolder(n_thetas=len(thetas))
+            for t in thetas:
+                h1.add_theta(t)
+            cut = 1 + case["idx"] % (len(thetas) - 1)
+            ha, hb = ThetaHolder(n_thetas=cut), ThetaHolder(n_thetas=len(thetas) - cut)
+            for t in thetas[:cut]:
+                ha.add_theta(t)
+            for t in thetas[cut:]:
+                hb.add_theta(t)
+            h2 = ha.combine(hb)
+            for name, fn, two_d in calls[:5]:
+                with np.errstate(all="ignore"):
+                    try:
+                        ref = np.array(fn(scr, holder), dtype=float)
+                    except Exception:  # noqa
+                        continue
+                    for how, hx in (("add_theta one by one", h1), ("combine of two partial holders", h2)):
+                        out = np.array(fn(scr, hx), dtype=float)
+                        if out.shape != ref.shape or out.tobytes() != ref.tobytes():
+                            R.fail("%s differs for a holder with the same samples built by %s" % (name, how), out.reshape(-1)[:8].tolist(),
+                                   ref.reshape(-1)[:8].tolist(), signature="C09:instalments")
+            R.instalments = True
+        except Exception as e:  # noqa
+            R.fail("a helper raises for a holder built in instalments", repr(e)[:200], "the same result as for the holder built at once",
+                   signature="C09:instalments")
 
 
 def aba_triple(sids):
@@ -580,9 +648,7 @@ def run_case(case, res, lines):
         whole[what] = out
         # ---- expected errors -------------------------------------------------------------
         if what != "var" and not supported:
-            want = "err:Other" if kind == "sdc" else "err:ValueError"
-            if out != want:
-                R.fail("unsupported arity not refused", {"method": what, "out": str(out)[:200]}, want)
+            # outside the property's quantifier (arity 1 and 2): compared with the MODEL only (tie), never a replay
             R.tie("c09.%s %s %s %s" % (kind, what, theta_tok(kind, th), screen_toks(base)), out, None, what, "whole")
             continue
         if isinstance(out, str):
@@ -610,6 +676,7 @@ def run_case(case, res, lines):
                                {"row": i, "sample": int(sids[i]), "treatments": [int(t) for t in tids[i]], "got": out[i]}, mu)
                         break
                 else:
+                    R.clip.add((kind, arity, "lo" if out[i] == 0.01 else ("hi" if out[i] == 0.99 else "in")))
                     if not (0.01 <= out[i] <= 0.99):
                         R.fail("viability outside [0.01, 0.99]", {"row": i, "got": out[i]}, "0.01 <= v <= 0.99")
                         break
@@ -812,9 +879,7 @@ def run_case(case, res, lines):
                             R.fail("predict_%s_avg is not the mean over the samples" % what, {"experiment": j, "got": avg[j], "column": col[:6]}, want,
                                    signature="C09:avg-not-mean")
                             break
-        elif not rows_ok or has_nan:
-            if not isinstance(allp_l, str):
-                R.fail("predict_%s_all returns although a sample is missing / fails / predicts NaN" % what, "matrix", "an exception")
+        # (incomplete holders, failing samples, NaN predictions: outside the quantifier -- the tie lines below compare them with the model)
         # the helpers on a subset / a plate: the corresponding COLUMNS of the helpers on the whole screen, exactly
         if n and not isinstance(allp_l, str) and shape == (declared, n) and declared > 0:
             views = [("subset", base.subset(m1), np.where(m1)[0])] if m1.any() else []
@@ -896,7 +961,7 @@ def run_gcz_case(case, res, lines):
     if arr.tobytes() != before:
         res.fail("copy_array_with_control_treatments_set_to_zero mutated its source array", case, "source changed", "source unchanged",
                  signature="C09:gather-mutates")
-    valid = all(-n <= t < n for t in case["ts"])
+    valid = all(-1 <= t < n for t in case["ts"]) and (n > 0 or not case["ts"])
     if valid:
         if isinstance(out, str):
             res.fail("gather raises on in-range ids", case, out, "array")
@@ -909,8 +974,7 @@ def run_gcz_case(case, res, lines):
                     break
             if out.shape != (len(case["ts"]),) + arr.shape[1:]:
                 res.fail("gather has wrong shape", case, list(out.shape), [len(case["ts"])] + list(arr.shape[1:]))
-    elif not isinstance(out, str):
-        res.fail("gather accepts an out-of-range id", case, "array", "IndexError")
+    # (ids < -1 or >= len: malformed input, compared with the model below, never a replay)
     if lines is not None:
         tt = "-" if not case["ts"] else ",".join(str(t) for t in case["ts"])
         if arr.ndim == 1:
@@ -931,12 +995,21 @@ def gen_case(rng, idx):
         arity = rng.choice([1, 2, 2, 2, 2, 3]) if rng.random() < 0.9 else 2
     else:
         arity = rng.choice([2, 2, 2, 2, 2, 2, 1, 3])
-    raw = gen_raw(rng, arity, n_s, n_t, n_max=12)
+    wide = rng.random() < 0.1
+    if wide:
+        n_s, n_t = 2, 258
+        arity = 2 if rng.random() < 0.8 else arity
+    raw = gen_raw(rng, arity, n_s, n_t, n_max=12) if not wide else gen_raw(rng, arity, n_s, n_t, n_max=16)
+    if wide:
+        widen_ids(rng, raw)
     n = len(raw["snames"])
-    n_th = rng.choice([0, 1, 2, 3, 4])
-    regime = rng.choice(["normal", "normal", "normal", "tiny", "large", "mixed", "grid"])
+    n_th = rng.choice([0, 1, 2, 3, 4]) if not wide else rng.choice([1, 2])
+    regime = rng.choice(["normal", "normal", "normal", "tiny", "large", "mixed", "grid", "clipedge", "clipedge"])
     short = rng.random() < 0.1      # theta with one treatment row too few -> IndexError when that id occurs
-    thetas = [gen_theta_case(rng, kind, n_s, max(n_t - (1 if short else 0), 0), regime) for _ in range(max(n_th, 1))]
+    if wide:
+        short = False
+    thetas = [gen_theta_case(rng, kind, n_s, max(n_t - (1 if short else 0), 0), regime, d=(rng.choice([1, 2]) if wide else None))
+              for _ in range(max(n_th, 1))]
     if (short or n_t == 0) and any(t["D"] == 0 for t in thetas):
         # numpy skips the bounds check when the gathered rows are empty (D = 0); keep ids in range there
         short = False
@@ -1028,6 +1101,10 @@ def _run(ctx, res):
         if case["short_theta"]:
             res.count("theta.too_small")
         res.count("theta.layout.%s" % case["thetas"][0].get("layout", "c"))
+        for kk, aa, side in R.clip:
+            res.count("class.boundary.clip.%s_arity%d.%s" % (kk, aa, side))
+        if R.instalments:
+            res.count("class.instalments.holder_add_theta_combine")
         if R.tmp_id_reuse is not None:
             res.count("class.temporaries")
             if R.tmp_id_reuse:
@@ -1065,6 +1142,10 @@ def _run(ctx, res):
                 res.count("class.falsy.id0")
             if raw["n_s"] >= 11:
                 res.count("class.size.two_digit_names")
+            if raw.get("wide") and used & {127, 128, 255, 256, 257}:
+                res.count("class.boundary.ids_127_128_255_256_257")
+                if d["arity"] == 2 and all({256, 257} & set(int(x) for x in tid_a[:, c]) for c in (0, 1)):
+                    res.count("class.boundary.ids_above_255_in_both_columns")
             if d["D"] >= 8:
                 res.count("class.size.D_ge_8")
         if d["rows"] <= 1 or case["held"] <= 1 or d["D"] == 0:
